@@ -4,8 +4,17 @@
 #![allow(clippy::all)]
 #[macro_use]
 pub mod sym;
+#[macro_use]
+pub mod suite;
+pub mod desert {
+    pub use desert_core::*;
+}
 pub mod refmodel;
+pub mod catalogue;
+pub mod refmodel_chrono;
 pub mod checks;
+mod c01_builtin;
+mod c02_derived;
 mod c11_varint;
 #[cfg(kani)]
 mod probe;
